@@ -34,7 +34,11 @@ def run(tier):
     quick = tier == "quick"
     geoms = ["g2x1s1", "g3x2s1", "g4x4s2", "default"]
     bins = vlib.build_many([dict(name=f"doc_record-{g}", source="doc_record.cpp", defines=dc.geom_defines(g))
-                            for g in geoms])
+                            for g in geoms] +
+                           # deserialization that does not shrink the pools afterwards (ARDUINOJSON_AUTO_SHRINK=0)
+                           [dict(name="doc_record-g3x2s1-noshrink", source="doc_record.cpp",
+                                 defines=dc.geom_defines("g3x2s1") + ["ARDUINOJSON_AUTO_SHRINK=0"])])
+    labels = geoms + ["g3x2s1-noshrink"]
     if quick:
         matrix = [(c, i, 3) for c in (1, 2, 3, 5) for i in (1, 3)]
         passed = poolmc.check_geometries(chk, wd, matrix, True, 3, 6)
@@ -45,7 +49,7 @@ def run(tier):
         passed += poolmc.check_geometries(chk, wd, [(2, 1, 4), (3, 2, 4), (5, 3, 4), (16, 4, 4)], False, 2, 9,
                                           timeout=3000)
     chk.phase("tlc:SlotPool", configurations=passed, states=chk.cov["states"])
-    memtrace.record_and_validate(chk, bins, geoms, wd, events=1500 if quick else 12000,
+    memtrace.record_and_validate(chk, bins, labels, wd, events=1500 if quick else 12000,
                                  runs_per_bin=2 if quick else 6)
     # the deserializers on their own: whatever the outcome (Ok, a syntax error, NoMemory for a string or key beyond
     # the build's maximum) nothing remains allocated after the document is destroyed, nothing is released twice,
